@@ -273,6 +273,7 @@ void *__real_malloc(size_t); void *__real_calloc(size_t, size_t); void *__real_r
 char *__real_strdup(const char *); char *__real_strndup(const char *, size_t);
 int __real_vasprintf(char **, const char *, va_list);
 ssize_t __real_getline(char **, size_t *, FILE *); ssize_t __real_getdelim(char **, size_t *, int, FILE *);
+ssize_t __real___getdelim(char **, size_t *, int, FILE *);
 int __real_lstat(const char *, struct stat *); int __real_stat(const char *, struct stat *);
 FILE *__real_fopen(const char *, const char *); int __real_fclose(FILE *);
 int __real_scandir(const char *, struct dirent ***, int (*)(const struct dirent *), int (*)(const struct dirent **, const struct dirent **));
@@ -422,6 +423,11 @@ static ssize_t getdelim_common(char **line, size_t *n, int delim, FILE *fp, void
 ssize_t __wrap_getline(char **line, size_t *n, FILE *fp) {
   if (!in_lib()) return __real_getline(line, n, fp);
   return getdelim_common(line, n, '\n', fp, __builtin_return_address(0));
+}
+// with optimisation glibc's <bits/stdio.h> turns getline() into a call of __getdelim()
+ssize_t __wrap___getdelim(char **line, size_t *n, int d, FILE *fp) {
+  if (!in_lib()) return __real___getdelim(line, n, d, fp);
+  return getdelim_common(line, n, d, fp, __builtin_return_address(0));
 }
 ssize_t __wrap_getdelim(char **line, size_t *n, int d, FILE *fp) {
   if (!in_lib()) return __real_getdelim(line, n, d, fp);
@@ -940,6 +946,10 @@ static json exec_op(TaskCtx *t, const json &op) {
     const char *s; { LibCall L; s = econf_errString((econf_err)I(op, "code")); } r["v"] = J(s);
   } else if (o == "errLocation") {
     char *fn = nullptr; uint64_t ln = 0; { LibCall L; econf_errLocation(&fn, &ln); } r["file"] = J(fn); r["line"] = ln; LibCall L; free(fn);
+  } else if (o == "chdir") {
+    // environment: the application changes its working directory between two calls
+    std::string d = SS(op, "path"); mkdirs(d);
+    if (chdir(d.c_str()) == 0) { g_cwd = d; r["rc"] = 0; R.fired["env_chdir"]++; } else r["rc"] = errno;
   } else if (o == "env_unlink") { r["rc"] = unlink(SS(op, "path").c_str()) ? errno : 0; R.fired["env_unlink"]++;
   } else if (o == "env_write") { r["rc"] = write_file(SS(op, "path"), SS(op, "c")) ? 0 : -1; R.fired["env_write"]++;
   } else if (o == "env_entry") { r = tree_entry(op["e"]);
@@ -1134,8 +1144,9 @@ static json run_plan(const json &plan) {
   if (R.ledger_on) {
     json leaks = json::array(); long long leaked_bytes = 0;
     std::vector<std::pair<uint64_t, std::pair<void *, LedgerEnt>>> l;
+    std::vector<std::string> behind;
     for (auto &kv : R.live) if (kv.second.cls == 0) {
-      if (__sanitizer_get_ownership && !__sanitizer_get_ownership(kv.first)) continue;   // released behind the wrappers' back
+      if (__sanitizer_get_ownership && !__sanitizer_get_ownership(kv.first)) { behind.push_back(std::string(kv.second.fn) + "/" + std::to_string(kv.second.size)); continue; }   // released behind the wrappers' back
       l.push_back({kv.second.serial, {kv.first, kv.second}});
     }
     std::sort(l.begin(), l.end(), [](auto &a, auto &b) { return a.first < b.first; });
@@ -1149,6 +1160,7 @@ static json run_plan(const json &plan) {
     std::sort(open_files.begin(), open_files.end());
     out["ledger"] = json{{"allocs", R.n_alloc}, {"frees", R.n_free}, {"unknown_frees", R.n_unknown_free}, {"leaks", leaks}, {"leak_count", l.size()}, {"leak_bytes", leaked_bytes},
                          {"fopen", R.n_fopen}, {"fclose", R.n_fclose}, {"open_files", open_files}};
+    if (!behind.empty()) { std::sort(behind.begin(), behind.end()); out["ledger"]["released_behind_wrappers"] = behind; }
     for (auto &f : R.files) __real_fclose(f.first);
     R.files.clear();
   }
